@@ -330,15 +330,21 @@ pub fn text_of(scn: &Value, cz: &mut Cz) -> Result<Vec<u8>, String> {
     Ok(out)
 }
 /// a real Request read from raw bytes whose request line carries `text` as its query
+/// The request object is one that has already served another request with a query of its own, as the request object of a keep-alive
+/// session has (what Session::manage does between two requests: clear_keeping, read_following).  An empty text is sent as a target without `?`.
 fn request_with_query(text: &[u8]) -> Result<ohkami::__verif::VRequest, String> {
-    let mut raw = b"GET /q?".to_vec();
+    let mut raw = if text.is_empty() { b"GET /q".to_vec() } else { b"GET /q?".to_vec() };
     raw.extend_from_slice(text);
-    raw.extend_from_slice(b" HTTP/1.1\r\nHost: verif\r\n\r\n");
+    raw.extend_from_slice(b" HTTP/1.1\r\nHost: verif\r\nCookie: q=x&lang=y\r\n\r\n");
     if raw.len() > 1000 { return Err("query too long for one request buffer".into()) }
     let mut req = ohkami::__verif::VRequest::new();
+    let mut pre: &[u8] = b"GET /earlier/request?zz=stale&k=old&q=1 HTTP/1.1\r\nHost: earlier\r\n\r\n";
+    match util::block_on(req.read(&mut pre)) { Ok(Some(())) => {} _ => return Err("earlier request not read".into()) }
+    let _ = req.get().query.iter().count();
+    let carried = req.clear_keeping(0..0);
     let mut rd: &[u8] = &raw;
-    match util::block_on(req.read(&mut rd)) {
-        Ok(Some(())) => Ok(req),
+    match util::block_on(req.read_following(&mut rd, carried)) {
+        Ok(Some(_)) => Ok(req),
         Ok(None) => Err("request not read".into()),
         Err(res) => Err(format!("request rejected with status {}", res.status.code())),
     }
